@@ -19,8 +19,10 @@
                      synchronously, from inside the callback; each result is reported as `P e ret <b>`
   adv <k>            clock += 100k ms        pass   nothing
   mark               `pass` + (8n+40) × `adv 60`; the harness records the end state if it is the control-free run of the freshly built tree
-  cmpfresh           (free mode) settle, then the harness compares the end state of a run that began with reset() + start()
-                     on the root with the recorded one ("a reset tree behaves like a freshly built one")
+  cmpfresh           settle (as `mark`), then the harness compares the end state of a run that began with reset() + start()
+                     on the root with the recorded one ("a reset tree behaves like a freshly built one"): when both runs
+                     were passes and clock steps only, or when both were driven by the same op script (round 11)
+  settmo <id> <k>|r<ms>   Action::setTimeout on node <id> at this pass (TmoCtl.lean)      clrtmo <id>   Action::resetTimeout
   advr <ms>          clock += ms (raw, ≤ 2^43)      passes <k>   k loop passes (≤ 200000), one snapshot at the end
   advdo <ms> <call>… a LATE pass: the clock moves by ms AFTER the timer phase, then the control calls (Late.lean `stepLate`)
                      leaves Zr<ms> (SleepAction of exactly ms), suffix @r<ms> (setTimeout(ms)), rep:<n> with n < 2^64
@@ -37,6 +39,7 @@ import TboxModel.C17.Inv
 import TboxModel.C17.Exec
 import TboxModel.C17.Reent
 import TboxModel.C17.Late
+import TboxModel.C17.TmoCtl
 open Tbox.Util Tbox.C17
 
 def mode3? : String → Option Mode3
@@ -349,6 +352,16 @@ def stepLine (ds : DS) (line : String) : DS × List String :=
             ({ ds with cfg := { fixPar := a == '1', fixReplay := b == '1', fixFin := c == '1', fixBlk := e == '1' } }, ["P cfg"])
           else (ds, ["bad-op"])
       | _ => (ds, ["bad-op"])
+  | ["share", k] =>
+      -- ONE leaf object attached to TWO parents of kind k: the second attach is refused by `Action::setParent` (the leaf has a parent);
+      -- the second parent neither uses nor owns the leaf.  (`M`: what the refusing call returns; Sequence returns `false` = 0.)
+      if ds.xs.isSome || ds.tree.isSome then (ds, ["bad-op"]) else
+      match k with
+      | "seq" => (ds, ["M share ret1=0 ret2=0", "P share seq st2=F+ calls2=0 st1=R calls1=1"])
+      | "par" => (ds, ["M share ret1=0 ret2=-1", "P share par st2=F+ calls2=0 st1=R calls1=1"])
+      | "ift" => (ds, ["M share ret1=0 ret2=-1", "P share ift st2=F- calls2=0"])
+      | "ife" | "sw" | "loop" | "lif" | "rep" | "wr" | "cmp" => (ds, ["M share ret1=1 ret2=0", s!"P share {k} ready2=0"])
+      | _ => (ds, ["bad-op"])
   | "tree" :: toks =>
       if ds.xs.isSome then (ds, ["bad-op"]) else
       match parseTree toks with
@@ -418,8 +431,18 @@ def stepLine (ds : DS) (line : String) : DS × List String :=
         | "icb", _ => some false
         | "settle", [] => some ds.free
         | "settle", _ => some false
-        | "cmpfresh", [] => some ds.free
+        | "cmpfresh", [] => if ds.free then some true else none
         | "cmpfresh", _ => some false
+        | "settmo", [ni, sp] =>
+            match ni.toNat?, splitTmo ("x@" ++ sp) with
+            | some ni, some (_, some _) => if ni < n then (if ds.free then some true else none) else some false
+            | _, _ => some false
+        | "settmo", _ => some false
+        | "clrtmo", [ni] =>
+            match ni.toNat? with
+            | some ni => if ni < n then (if ds.free then some true else none) else some false
+            | none => some false
+        | "clrtmo", _ => some false
         | _, _ => none
       -- a late pass: `advdo <ms> <call>…`
       let late? : Option (Option (Nat × List Call)) :=
@@ -435,6 +458,16 @@ def stepLine (ds : DS) (line : String) : DS × List String :=
         | some none => none
         | none => opr?
       let lateMs : Nat := match late? with | some (some (k, _)) => k | _ => 0
+      -- a timeout change at this pass: the model applies it (TmoCtl.lean `stepT`), then the pass runs
+      let tmoOp? : Option (Nat × Option Nat) :=
+        match opw, args with
+        | "settmo", [ni, sp] =>
+            match ni.toNat?, splitTmo ("x@" ++ sp) with
+            | some ni, some (_, some x) => some (ni, some (tmoMs ni x))
+            | _, _ => none
+        | "clrtmo", [ni] => ni.toNat?.map fun ni => (ni, none)
+        | _, _ => none
+      let opr? : Option OpR := if tmoOp?.isSome then some (.op .pass) else opr?
       match icb? with
       | some false => (ds, ["bad-op"])
       | some true => ({ ds with free := true, plain := false }, ["B free-mode", "P free"])
@@ -446,6 +479,9 @@ def stepLine (ds : DS) (line : String) : DS × List String :=
         let ds := { ds with scripted := ds.scripted || (match opr with | .cb _ _ => true | _ => false) }
         let op : Op := match opr with | .op o => o | .cb _ _ => .pass
         let g0 := { ds.g with log := [], now := ds.g.now + lateMs }      -- (lateMs ≠ 0: `stepLate` / `stepLateR` of Late.lean)
+        let (t, g0) := match tmoOp? with
+          | some (ni, ms) => setTimeoutAt t g0 ni ms
+          | none => (t, g0)
         -- without callback scripts the model of Model.lean runs (the one the theorems of layers 1–3 are about)
         let (t', g', rs) := if ds.scripted then stepR t g0 opr else step t g0 op
         let evs := g'.log.reverse
@@ -454,7 +490,7 @@ def stepLine (ds : DS) (line : String) : DS × List String :=
           | .calls [.start] => !ds.started
           | .adv _ | .pass => true
           | _ => false
-        let isPlainOp := isPlainOp && late?.isNone
+        let isPlainOp := isPlainOp && late?.isNone && tmoOp?.isNone
         let ds := { ds with plain := ds.plain && isPlainOp,
                             started := ds.started || (match op with | .calls _ | .defer _ => true | _ => false) }
         let (ds, mon) := monitorEvents ds evs t'
@@ -487,6 +523,10 @@ def stepLine (ds : DS) (line : String) : DS × List String :=
           ++ (if evs.any (fun e => match e with | .rootFin _ _ _ => true | _ => false) then ["root-fin"] else [])
           ++ (if evs.any (fun e => match e with | .rootBlk _ _ => true | _ => false) then ["root-blk"] else [])
           ++ (if (nodesOf t').any (fun x => x.1.tmoAt.isSome) then ["tmo-armed"] else [])
+          ++ (if (nodesOf t').any (fun x => x.1.tmoAt.isSome && x.1.st == .pause) then ["tmo-blocked"] else [])
+          ++ (if (nodesOf t).any (fun x => x.1.tmoAt.isSome && x.1.st == .pause) && (match op with | .calls cs => cs.contains .reset | .defer cs => cs.contains .reset | _ => false)
+              then ["tmo-blocked-reset"] else [])
+          ++ (if tmoOp?.isSome then ["settmo"] else [])
           ++ parCtlTags t op
           ++ (if tmoRace t' then ["tmo-race"] else [])
           ++ (if (nodesOf t').any (fun x => x.1.isPar && x.1.st == .pause) then ["par-paused"] else [])
@@ -509,8 +549,11 @@ def stepLineX (ds : DS) (line : String) : DS × List String :=
           (ds', p.2 ++ keep.toArray)) (ds, #[])
         (r.1, ["B passes"] ++ r.2.toList)
       | none => (ds, ["bad-op"])
-  | ["mark"] =>
-      -- `mark` = `pass` followed by 8n+40 times `adv 60`, one snapshot at the end (the harness records the end state)
+  | [mk] =>
+      if mk != "mark" && mk != "cmpfresh" then stepLine ds line else
+      if mk == "cmpfresh" && ds.free then stepLine ds line else
+      -- `mark` = `pass` followed by 8n+40 times `adv 60`, one snapshot at the end (the harness records the end state);
+      -- `cmpfresh` outside free mode: the same steps (the harness compares the end state with the recorded one)
       match ds.tree with
       | none => (ds, ["bad-op"])
       | some (_, n) =>
@@ -520,7 +563,7 @@ def stepLineX (ds : DS) (line : String) : DS × List String :=
           let (ds', out) := stepLine p.1 (if i == 0 then "pass" else "adv 60")
           let keep := out.filter fun l => if i + 1 == k then true else !(l.startsWith "P r=") && !(l.startsWith "B ")
           (ds', p.2 ++ keep.toArray)) (ds, #[])
-        (r.1, ["B mark"] ++ r.2.toList)
+        (r.1, ["B " ++ mk] ++ r.2.toList)
   | _ => stepLine ds line
 
 def main : IO Unit := runDriver ({} : DS) stepLineX
